@@ -327,7 +327,7 @@ def check(pid, tier, spec, seed=0, replay=None):
         j = dict(j)
         if 'tiers' in j and tier not in j['tiers']: continue
         d = dict(j.get('defs', {})); d.update(j.get('defs_' + tier, {})); j['defs'] = d
-        j['budget'] = j.get('budget_' + tier, j.get('budget', 170 if tier == 'quick' else 2400))
+        j['budget'] = j.get('budget_' + tier, j.get('budget', 600 if tier == 'quick' else 3000))
         jobs.append(j)
     nproc = int(os.environ.get('VK_NPROC', '16'))
     # ---- build (parallel)
